@@ -582,7 +582,10 @@ impl RobotBody {
     }
 
     fn check_required(&self, i: usize, j: usize, skip: &HashSet<usize>, safety: &SafetyDistances) -> bool {
-        !skip.contains(&i) && !skip.contains(&j) &&
+        // The skip set lists the joints that did not move. A pair only can be skipped if none of
+        // its members moved: the tool moves with any joint, base and environment never move.
+        let moved = |x: usize| x == J_TOOL || (x < 6 && !skip.contains(&x));
+        (moved(i) || moved(j)) &&
             safety.min_distance(i as u16, j as u16) > &NEVER_COLLIDES
     }    
 }
